@@ -452,6 +452,10 @@ Definition bind_task (c : cache) (jid tid nid : positive) (bind_ok : bool) : cac
     match c_nodes c !! nid with
     | None => (c, RNoNode)
     | Some ni =>
+      (* after fix 8dab8c3: a NodeInfo without Node object (the placeholder of addTask /
+         RemoveNode) is refused before the task status is touched; the caller treats it like
+         "host does not exist" *)
+      if negb (n_has_node ni) then (c, RNoNode) else
       let '(j1, t1) := job_set_status (cj_job cj) st Binding in
       match node_add eps ni t1 with
       | inl (ni', t2) =>
